@@ -9,6 +9,25 @@ OUT = os.path.join(os.path.dirname(os.path.dirname(os.path.abspath(__file__))), 
 
 M = [
     # (property, name, file, old, new, expected rule, note)
+    # --- sensitivity of the rules restated after the benign corpus (11.6) -------------------------
+    ('C08', 'restat-ignores-selection', 'src/build_log.cc',
+     '    if (!skip) {\n      const TimeStamp mtime', '    if (true) {\n      const TimeStamp mtime', 'C08.W1', 'every entry re-stat\'ed'),
+    ('C08', 'restat-prefix-match', 'src/build_log.cc',
+     '      if (pair.second->output == outputs[j]) {', '      if (pair.second->output.compare(0, strlen(outputs[j]), outputs[j]) == 0) {', 'C08.W1', 'prefix instead of equality'),
+    ('C02', 'restat-shortcut-not-honoured', 'src/graph.cc',
+     '  if (!used_restat && most_recent_input &&', '  if (most_recent_input &&', 'C02.TA3', 'file mtime compared although the log mtime should be'),
+    ('C09', 'unchanged-check-first-element-only', 'src/deps_log.cc',
+     '      for (int i = 0; i < node_count; ++i) {\n        if (deps->nodes[i] != nodes[i]) {', '      for (int i = 0; i < 1 && i < node_count; ++i) {\n        if (deps->nodes[i] != nodes[i]) {', 'C09.N2', 'changed deps not recorded'),
+    ('C16', 'pathlist-drops-last', 'src/graph.cc',
+     'for (const Node* const* i = span; i != span + size; ++i) {', 'for (const Node* const* i = span; i != span + size - (size > 1); ++i) {', 'C16.W1', 'last path missing'),
+    ('C20', 'stripper-drops-digits', 'src/util.cc',
+     "    if (in[i] != '\\33') {\n      // Not an escape code.\n      stripped.push_back(in[i]);\n      continue;\n    }",
+     "    if (in[i] != '\\33') {\n      // Not an escape code.\n      if (in[i] != '\\a') stripped.push_back(in[i]);\n      continue;\n    }", 'C20.W1', 'BEL bytes dropped from output'),
+    ('C06', 'active-edges-only-running', 'src/real_command_runner.cc',
+     '    edges.push_back(e->second);', '    if (!e->first->Done()) edges.push_back(e->second);', 'C06.R2', 'finished-not-reaped commands keep slot'),
+    ('C10', 'recorddeps-skipped-after-prune', 'src/build.cc',
+     '  if (!deps_type.empty() && !config_.dry_run) {\n    assert(!edge->outputs_.empty() && "should have been rejected by parser");',
+     '  if (!deps_type.empty() && !config_.dry_run && record_mtime != 0) {\n    assert(!edge->outputs_.empty() && "should have been rejected by parser");', 'C10.O1', 'deps not recorded in some runs'),
     ('C05', 'drop-failed-early-return', 'src/build.cc',
      '  if (result != kEdgeSucceeded)\n    return true;\n\n  if (directly_wanted)',
      '  if (directly_wanted)', 'C05.G1', 'success bookkeeping also for failed edges'),
